@@ -166,7 +166,7 @@ def sealIf (b : Bool) (t : Tree) : Tree := if b then t.seal true else t
 def cloneSealed (cfg : Cfg) (m : Meta) : Bool :=
   match m.kind with
   | .list => cfg.listCloneSealed && m.sealed
-  | .obj 2 => false          -- `Ref._sym_clone` builds `Ref(value, allow_partial=…)`: `sealed` is lost (F90)
+  | .obj 2 => false          -- `Ref._sym_clone` builds `Ref(value, allow_partial=…)`: `sealed` is lost (F92)
   | _ => m.sealed
 
 mutual
